@@ -1,6 +1,8 @@
 
 type __ = Obj.t
 
+val xorb : bool -> bool -> bool
+
 val negb : bool -> bool
 
 type nat =
@@ -8,6 +10,10 @@ type nat =
 | S of nat
 
 val option_map : ('a1 -> 'a2) -> 'a1 option -> 'a2 option
+
+type ('a, 'b) sum =
+| Inl of 'a
+| Inr of 'b
 
 val fst : ('a1 * 'a2) -> 'a1
 
@@ -26,7 +32,101 @@ type comparison =
 | Lt
 | Gt
 
+type compareSpecT =
+| CompEqT
+| CompLtT
+| CompGtT
+
+val compareSpec2Type : comparison -> compareSpecT
+
+type 'a compSpecT = compareSpecT
+
+val compSpec2Type : 'a1 -> 'a1 -> comparison -> 'a1 compSpecT
+
 val id : __ -> __
+
+type 'a sig0 =
+| Exist of 'a
+
+
+
+type uint =
+| Nil
+| D0 of uint
+| D1 of uint
+| D2 of uint
+| D3 of uint
+| D4 of uint
+| D5 of uint
+| D6 of uint
+| D7 of uint
+| D8 of uint
+| D9 of uint
+
+type signed_int =
+| Pos of uint
+| Neg of uint
+
+val nzhead : uint -> uint
+
+val unorm : uint -> uint
+
+val norm : signed_int -> signed_int
+
+val revapp : uint -> uint -> uint
+
+val rev : uint -> uint
+
+module Little :
+ sig
+  val succ : uint -> uint
+ end
+
+type uint0 =
+| Nil0
+| D10 of uint0
+| D11 of uint0
+| D12 of uint0
+| D13 of uint0
+| D14 of uint0
+| D15 of uint0
+| D16 of uint0
+| D17 of uint0
+| D18 of uint0
+| D19 of uint0
+| Da of uint0
+| Db of uint0
+| Dc of uint0
+| Dd of uint0
+| De of uint0
+| Df of uint0
+
+type signed_int0 =
+| Pos0 of uint0
+| Neg0 of uint0
+
+val nzhead0 : uint0 -> uint0
+
+val unorm0 : uint0 -> uint0
+
+val norm0 : signed_int0 -> signed_int0
+
+val revapp0 : uint0 -> uint0 -> uint0
+
+val rev0 : uint0 -> uint0
+
+module Coq_Little :
+ sig
+  val succ : uint0 -> uint0
+ end
+
+type uint1 =
+| UIntDecimal of uint
+| UIntHexadecimal of uint0
+
+type signed_int1 =
+| IntDecimal of signed_int
+| IntHexadecimal of signed_int0
 
 val add : nat -> nat -> nat
 
@@ -306,13 +406,255 @@ val flip : ('a1 -> 'a2 -> 'a3) -> 'a2 -> 'a1 -> 'a3
 
 val eqb : bool -> bool -> bool
 
+type reflect =
+| ReflectT
+| ReflectF
+
+val iff_reflect : bool -> reflect
+
 module Nat :
  sig
+  type t = nat
+
+  val zero : nat
+
+  val one : nat
+
+  val two : nat
+
+  val succ : nat -> nat
+
+  val pred : nat -> nat
+
+  val add : nat -> nat -> nat
+
+  val double : nat -> nat
+
+  val mul : nat -> nat -> nat
+
+  val sub : nat -> nat -> nat
+
   val eqb : nat -> nat -> bool
+
+  val leb : nat -> nat -> bool
+
+  val ltb : nat -> nat -> bool
+
+  val compare : nat -> nat -> comparison
+
+  val max : nat -> nat -> nat
+
+  val min : nat -> nat -> nat
+
+  val even : nat -> bool
+
+  val odd : nat -> bool
+
+  val pow : nat -> nat -> nat
+
+  val tail_add : nat -> nat -> nat
+
+  val tail_addmul : nat -> nat -> nat -> nat
+
+  val tail_mul : nat -> nat -> nat
+
+  val of_uint_acc : uint -> nat -> nat
+
+  val of_uint : uint -> nat
+
+  val of_hex_uint_acc : uint0 -> nat -> nat
+
+  val of_hex_uint : uint0 -> nat
+
+  val of_num_uint : uint1 -> nat
+
+  val to_little_uint : nat -> uint -> uint
+
+  val to_uint : nat -> uint
+
+  val to_little_hex_uint : nat -> uint0 -> uint0
+
+  val to_hex_uint : nat -> uint0
+
+  val to_num_uint : nat -> uint1
+
+  val to_num_hex_uint : nat -> uint1
+
+  val of_int : signed_int -> nat option
+
+  val of_hex_int : signed_int0 -> nat option
+
+  val of_num_int : signed_int1 -> nat option
+
+  val to_int : nat -> signed_int
+
+  val to_hex_int : nat -> signed_int0
+
+  val to_num_int : nat -> signed_int1
 
   val divmod : nat -> nat -> nat -> nat -> nat * nat
 
   val div : nat -> nat -> nat
+
+  val modulo : nat -> nat -> nat
+
+  val gcd : nat -> nat -> nat
+
+  val square : nat -> nat
+
+  val sqrt_iter : nat -> nat -> nat -> nat -> nat
+
+  val sqrt : nat -> nat
+
+  val log2_iter : nat -> nat -> nat -> nat -> nat
+
+  val log2 : nat -> nat
+
+  val iter : nat -> ('a1 -> 'a1) -> 'a1 -> 'a1
+
+  val div2 : nat -> nat
+
+  val testbit : nat -> nat -> bool
+
+  val shiftl : nat -> nat -> nat
+
+  val shiftr : nat -> nat -> nat
+
+  val bitwise : (bool -> bool -> bool) -> nat -> nat -> nat -> nat
+
+  val coq_land : nat -> nat -> nat
+
+  val coq_lor : nat -> nat -> nat
+
+  val ldiff : nat -> nat -> nat
+
+  val coq_lxor : nat -> nat -> nat
+
+  val recursion : 'a1 -> (nat -> 'a1 -> 'a1) -> nat -> 'a1
+
+  val eq_dec : nat -> nat -> bool
+
+  val leb_spec0 : nat -> nat -> reflect
+
+  val ltb_spec0 : nat -> nat -> reflect
+
+  module Private_OrderTac :
+   sig
+    module IsTotal :
+     sig
+     end
+
+    module Tac :
+     sig
+     end
+   end
+
+  module Private_Tac :
+   sig
+   end
+
+  module Private_Dec :
+   sig
+    val max_case_strong :
+      nat -> nat -> (nat -> nat -> __ -> 'a1 -> 'a1) -> (__ -> 'a1) -> (__ ->
+      'a1) -> 'a1
+
+    val max_case :
+      nat -> nat -> (nat -> nat -> __ -> 'a1 -> 'a1) -> 'a1 -> 'a1 -> 'a1
+
+    val max_dec : nat -> nat -> bool
+
+    val min_case_strong :
+      nat -> nat -> (nat -> nat -> __ -> 'a1 -> 'a1) -> (__ -> 'a1) -> (__ ->
+      'a1) -> 'a1
+
+    val min_case :
+      nat -> nat -> (nat -> nat -> __ -> 'a1 -> 'a1) -> 'a1 -> 'a1 -> 'a1
+
+    val min_dec : nat -> nat -> bool
+   end
+
+  val max_case_strong : nat -> nat -> (__ -> 'a1) -> (__ -> 'a1) -> 'a1
+
+  val max_case : nat -> nat -> 'a1 -> 'a1 -> 'a1
+
+  val max_dec : nat -> nat -> bool
+
+  val min_case_strong : nat -> nat -> (__ -> 'a1) -> (__ -> 'a1) -> 'a1
+
+  val min_case : nat -> nat -> 'a1 -> 'a1 -> 'a1
+
+  val min_dec : nat -> nat -> bool
+
+  module Private_Parity :
+   sig
+   end
+
+  module Private_NZPow :
+   sig
+   end
+
+  module Private_NZSqrt :
+   sig
+   end
+
+  val sqrt_up : nat -> nat
+
+  val log2_up : nat -> nat
+
+  module Private_NZDiv :
+   sig
+   end
+
+  val lcm : nat -> nat -> nat
+
+  val eqb_spec : nat -> nat -> reflect
+
+  val b2n : bool -> nat
+
+  val setbit : nat -> nat -> nat
+
+  val clearbit : nat -> nat -> nat
+
+  val ones : nat -> nat
+
+  val lnot : nat -> nat -> nat
+
+  val coq_Even_Odd_dec : nat -> bool
+
+  type coq_EvenT = nat sig0
+
+  type coq_OddT = nat sig0
+
+  val coq_EvenT_0 : coq_EvenT
+
+  val coq_EvenT_2 : nat -> coq_EvenT -> coq_EvenT
+
+  val coq_OddT_1 : coq_OddT
+
+  val coq_OddT_2 : nat -> coq_OddT -> coq_OddT
+
+  val coq_EvenT_S_OddT : nat -> coq_EvenT -> coq_OddT
+
+  val coq_OddT_S_EvenT : nat -> coq_OddT -> coq_EvenT
+
+  val even_EvenT : nat -> coq_EvenT
+
+  val odd_OddT : nat -> coq_OddT
+
+  val coq_Even_EvenT : nat -> coq_EvenT
+
+  val coq_Odd_OddT : nat -> coq_OddT
+
+  val coq_EvenT_OddT_dec : nat -> (coq_EvenT, coq_OddT) sum
+
+  val coq_OddT_EvenT_rect :
+    (nat -> coq_EvenT -> 'a2 -> 'a1) -> 'a2 -> (nat -> coq_OddT -> 'a1 ->
+    'a2) -> nat -> coq_OddT -> 'a1
+
+  val coq_EvenT_OddT_rect :
+    (nat -> coq_EvenT -> 'a2 -> 'a1) -> 'a2 -> (nat -> coq_OddT -> 'a1 ->
+    'a2) -> nat -> coq_EvenT -> 'a2
  end
 
 module Pos :
@@ -414,7 +756,7 @@ module N :
 
 val nth : nat -> 'a1 list -> 'a1 -> 'a1
 
-val rev : 'a1 list -> 'a1 list
+val rev1 : 'a1 list -> 'a1 list
 
 val concat : 'a1 list list -> 'a1 list
 
@@ -455,9 +797,9 @@ val of_N : n -> byte option
 type ascii =
 | Ascii of bool * bool * bool * bool * bool * bool * bool * bool
 
-val zero : ascii
+val zero0 : ascii
 
-val one : ascii
+val one0 : ascii
 
 val shift : bool -> ascii -> ascii
 
@@ -476,6 +818,251 @@ type string =
 | String of ascii * string
 
 val eqb2 : string -> string -> bool
+
+module Coq_Nat :
+ sig
+  type t = nat
+
+  val zero : nat
+
+  val one : nat
+
+  val two : nat
+
+  val succ : nat -> nat
+
+  val pred : nat -> nat
+
+  val add : nat -> nat -> nat
+
+  val double : nat -> nat
+
+  val mul : nat -> nat -> nat
+
+  val sub : nat -> nat -> nat
+
+  val eqb : nat -> nat -> bool
+
+  val leb : nat -> nat -> bool
+
+  val ltb : nat -> nat -> bool
+
+  val compare : nat -> nat -> comparison
+
+  val max : nat -> nat -> nat
+
+  val min : nat -> nat -> nat
+
+  val even : nat -> bool
+
+  val odd : nat -> bool
+
+  val pow : nat -> nat -> nat
+
+  val tail_add : nat -> nat -> nat
+
+  val tail_addmul : nat -> nat -> nat -> nat
+
+  val tail_mul : nat -> nat -> nat
+
+  val of_uint_acc : uint -> nat -> nat
+
+  val of_uint : uint -> nat
+
+  val of_hex_uint_acc : uint0 -> nat -> nat
+
+  val of_hex_uint : uint0 -> nat
+
+  val of_num_uint : uint1 -> nat
+
+  val to_little_uint : nat -> uint -> uint
+
+  val to_uint : nat -> uint
+
+  val to_little_hex_uint : nat -> uint0 -> uint0
+
+  val to_hex_uint : nat -> uint0
+
+  val to_num_uint : nat -> uint1
+
+  val to_num_hex_uint : nat -> uint1
+
+  val of_int : signed_int -> nat option
+
+  val of_hex_int : signed_int0 -> nat option
+
+  val of_num_int : signed_int1 -> nat option
+
+  val to_int : nat -> signed_int
+
+  val to_hex_int : nat -> signed_int0
+
+  val to_num_int : nat -> signed_int1
+
+  val divmod : nat -> nat -> nat -> nat -> nat * nat
+
+  val div : nat -> nat -> nat
+
+  val modulo : nat -> nat -> nat
+
+  val gcd : nat -> nat -> nat
+
+  val square : nat -> nat
+
+  val sqrt_iter : nat -> nat -> nat -> nat -> nat
+
+  val sqrt : nat -> nat
+
+  val log2_iter : nat -> nat -> nat -> nat -> nat
+
+  val log2 : nat -> nat
+
+  val iter : nat -> ('a1 -> 'a1) -> 'a1 -> 'a1
+
+  val div2 : nat -> nat
+
+  val testbit : nat -> nat -> bool
+
+  val shiftl : nat -> nat -> nat
+
+  val shiftr : nat -> nat -> nat
+
+  val bitwise : (bool -> bool -> bool) -> nat -> nat -> nat -> nat
+
+  val coq_land : nat -> nat -> nat
+
+  val coq_lor : nat -> nat -> nat
+
+  val ldiff : nat -> nat -> nat
+
+  val coq_lxor : nat -> nat -> nat
+
+  val recursion : 'a1 -> (nat -> 'a1 -> 'a1) -> nat -> 'a1
+
+  val eq_dec : nat -> nat -> bool
+
+  val leb_spec0 : nat -> nat -> reflect
+
+  val ltb_spec0 : nat -> nat -> reflect
+
+  module Private_OrderTac :
+   sig
+    module IsTotal :
+     sig
+     end
+
+    module Tac :
+     sig
+     end
+   end
+
+  module Private_Tac :
+   sig
+   end
+
+  module Private_Dec :
+   sig
+    val max_case_strong :
+      nat -> nat -> (nat -> nat -> __ -> 'a1 -> 'a1) -> (__ -> 'a1) -> (__ ->
+      'a1) -> 'a1
+
+    val max_case :
+      nat -> nat -> (nat -> nat -> __ -> 'a1 -> 'a1) -> 'a1 -> 'a1 -> 'a1
+
+    val max_dec : nat -> nat -> bool
+
+    val min_case_strong :
+      nat -> nat -> (nat -> nat -> __ -> 'a1 -> 'a1) -> (__ -> 'a1) -> (__ ->
+      'a1) -> 'a1
+
+    val min_case :
+      nat -> nat -> (nat -> nat -> __ -> 'a1 -> 'a1) -> 'a1 -> 'a1 -> 'a1
+
+    val min_dec : nat -> nat -> bool
+   end
+
+  val max_case_strong : nat -> nat -> (__ -> 'a1) -> (__ -> 'a1) -> 'a1
+
+  val max_case : nat -> nat -> 'a1 -> 'a1 -> 'a1
+
+  val max_dec : nat -> nat -> bool
+
+  val min_case_strong : nat -> nat -> (__ -> 'a1) -> (__ -> 'a1) -> 'a1
+
+  val min_case : nat -> nat -> 'a1 -> 'a1 -> 'a1
+
+  val min_dec : nat -> nat -> bool
+
+  module Private_Parity :
+   sig
+   end
+
+  module Private_NZPow :
+   sig
+   end
+
+  module Private_NZSqrt :
+   sig
+   end
+
+  val sqrt_up : nat -> nat
+
+  val log2_up : nat -> nat
+
+  module Private_NZDiv :
+   sig
+   end
+
+  val lcm : nat -> nat -> nat
+
+  val eqb_spec : nat -> nat -> reflect
+
+  val b2n : bool -> nat
+
+  val setbit : nat -> nat -> nat
+
+  val clearbit : nat -> nat -> nat
+
+  val ones : nat -> nat
+
+  val lnot : nat -> nat -> nat
+
+  val coq_Even_Odd_dec : nat -> bool
+
+  type coq_EvenT = nat sig0
+
+  type coq_OddT = nat sig0
+
+  val coq_EvenT_0 : coq_EvenT
+
+  val coq_EvenT_2 : nat -> coq_EvenT -> coq_EvenT
+
+  val coq_OddT_1 : coq_OddT
+
+  val coq_OddT_2 : nat -> coq_OddT -> coq_OddT
+
+  val coq_EvenT_S_OddT : nat -> coq_EvenT -> coq_OddT
+
+  val coq_OddT_S_EvenT : nat -> coq_OddT -> coq_EvenT
+
+  val even_EvenT : nat -> coq_EvenT
+
+  val odd_OddT : nat -> coq_OddT
+
+  val coq_Even_EvenT : nat -> coq_EvenT
+
+  val coq_Odd_OddT : nat -> coq_OddT
+
+  val coq_EvenT_OddT_dec : nat -> (coq_EvenT, coq_OddT) sum
+
+  val coq_OddT_EvenT_rect :
+    (nat -> coq_EvenT -> 'a2 -> 'a1) -> 'a2 -> (nat -> coq_OddT -> 'a1 ->
+    'a2) -> nat -> coq_OddT -> 'a1
+
+  val coq_EvenT_OddT_rect :
+    (nat -> coq_EvenT -> 'a2 -> 'a1) -> 'a2 -> (nat -> coq_OddT -> 'a1 ->
+    'a2) -> nat -> coq_EvenT -> 'a2
+ end
 
 type decision = bool
 
@@ -601,6 +1188,8 @@ module Coq0_Pos :
  end
 
 val n_eq_dec : (n, n) relDecision
+
+val list_lookup : (nat, 'a1, 'a1 list) lookup
 
 val list_filter : ('a1 -> decision) -> 'a1 list -> 'a1 list
 
@@ -1428,3 +2017,15 @@ val balanced_b : n list -> tev list -> bool
 val waits : tev list -> bool list
 
 val committed : tev list -> bool
+
+type hop = { h_inv : n; h_ret : n; h_call : call; h_rep : oreply }
+
+val replay : params -> hop list -> afs -> nat list -> afs option
+
+val rt_ok : hop list -> nat list -> bool
+
+val nodupb : nat list -> bool
+
+val is_perm : nat -> nat list -> bool
+
+val lin_check : params -> hop list -> afs -> (afs -> bool) -> nat list -> bool
